@@ -1,6 +1,8 @@
 import Polyseed.Lemmas.Api
+import Polyseed.Lemmas.Heap
 import Polyseed.Lemmas.Bits
 import Polyseed.Model.Canon
+import Polyseed.Lemmas.PackSpec
 /-!
 # C12 — password encryption is an involution that always leaves a valid seed
 -/
@@ -126,20 +128,16 @@ theorem getD_lt_of (l : List Nat) (h : ∀ b ∈ l, b < 256) (i : Nat) : l.getD 
   | none => simp
   | some v => simp; exact h v (List.mem_of_getElem? hi)
 
-/-- Each application toggles the encrypted flag, leaves birthday and user features unchanged, keeps the
-secret within 150 bits and the padding zero, and recomputes the check value: the result is canonical for
-EVERY mask the KDF can return (so a wrong password still yields a well-formed seed). -/
-theorem crypt_canon (d : Data) (m : List Nat) (h : d.Canon) (hm : MaskOK m)
-    (hchk : checkValue { d with secret := cryptSecret d.secret m, features := d.features ^^^ 16 } < 2048) :
-    (cryptData d m).Canon := by
+/-- the seed after the XOR and the flag toggle, before the check value is recomputed, is well-formed -/
+theorem crypt_wf (d : Data) (m : List Nat) (h : d.WF) (hm : MaskOK m) :
+    (Data.mk d.birthday (d.features ^^^ 16) (cryptSecret d.secret m) d.checksum).WF := by
   have hs : d.secret.length = 32 := h.secret_len
   have hg := cryptSecret_getD d.secret m hs
-  refine { birthday_lt := h.birthday_lt, features_lt := ?_, checksum_lt := ?_, secret_len := ?_, secret_bytes := ?_,
-           secret_top := ?_, secret_pad := ?_, checksum_ok := ?_ }
-  · rw [cryptData_features]; exact Nat.xor_lt_two_pow (n := 5) h.features_lt (by decide)
-  · rw [cryptData_checksum]; exact hchk
-  · rw [cryptData_secret, cryptSecret_length]; exact hs
-  · rw [cryptData_secret]
+  refine { birthday_lt := h.birthday_lt, features_lt := ?_, checksum_lt := h.checksum_lt, secret_len := ?_, secret_bytes := ?_,
+           secret_top := ?_, secret_pad := ?_ }
+  · exact Nat.xor_lt_two_pow (n := 5) h.features_lt (by decide)
+  · show (cryptSecret d.secret m).length = _; rw [cryptSecret_length]; exact hs
+  · show ∀ b ∈ cryptSecret d.secret m, b < 256
     intro b hb
     obtain ⟨i, hi, rfl⟩ := List.getElem_of_mem hb
     have := hg i
@@ -152,10 +150,11 @@ theorem crypt_canon (d : Data) (m : List Nat) (h : d.Canon) (hm : MaskOK m)
     · split
       · have := Nat.and_le_right (n := d.secret[18]?.getD 0 ^^^ m[18]?.getD 0) (m := 63); omega
       · exact hsb i
-  · rw [cryptData_secret, hg 18]
+  · show (cryptSecret d.secret m).getD 18 0 < 64
+    rw [hg 18]
     simp only [Nat.lt_irrefl, ↓reduceIte]
     have := Nat.and_le_right (n := d.secret.getD 18 0 ^^^ m.getD 18 0) (m := 63); omega
-  · rw [cryptData_secret]
+  · show (cryptSecret d.secret m).drop SECRET_SIZE = _
     apply getD_ext
     · simp [cryptSecret_length, hs, SECRET_SIZE, SECRET_BUFFER_SIZE]
     · intro i
@@ -167,8 +166,17 @@ theorem crypt_canon (d : Data) (m : List Nat) (h : d.Canon) (hm : MaskOK m)
       have h2 : ¬ (19 + i = 18) := by omega
       simp only [this, h2, ↓reduceIte]
       rw [← e, hp]
-  · rw [cryptData_checksum]
-    apply checkValue_congr <;> rfl
+
+/-- Each application toggles the encrypted flag, leaves birthday and user features unchanged, keeps the
+secret within 150 bits and the padding zero, and recomputes the check value: the result is canonical for
+EVERY mask the KDF can return (so a wrong password still yields a well-formed seed). -/
+theorem crypt_canon (d : Data) (m : List Nat) (h : d.Canon) (hm : MaskOK m) : (cryptData d m).Canon := by
+  have hwf := crypt_wf d m h.toWF hm
+  have hck : (cryptData d m).checksum = checkValue (Data.mk d.birthday (d.features ^^^ 16) (cryptSecret d.secret m) d.checksum) := by
+    rw [cryptData_checksum]
+  exact { birthday_lt := hwf.birthday_lt, features_lt := hwf.features_lt, checksum_lt := by rw [hck]; exact checkValue_lt _ hwf,
+          secret_len := hwf.secret_len, secret_bytes := hwf.secret_bytes, secret_top := hwf.secret_top, secret_pad := hwf.secret_pad,
+          checksum_ok := by rw [hck]; apply checkValue_congr <;> rfl }
 
 /-- the flag toggles -/
 theorem crypt_toggles (d : Data) (m : List Nat) (hf : d.features < 32) :
@@ -184,7 +192,7 @@ theorem crypt_toggles (d : Data) (m : List Nat) (hf : d.features < 32) :
 
 /-- `polyseed_crypt`: the events are [nfkd of the password, if it has non-ASCII bytes], ONE KDF call with
 (normalised password, 'POLYSEED mask' 00 FF FF, 10000 iterations, 32 bytes), then the three wipes. -/
-theorem crypt_events (cfg : Cfg) (env : Env) (lib : Lib) (b : Nat) (d : Data) (pw : List Nat) :
+theorem crypt_events (cfg : Cfg) (env : Env) (lib : Lib) (b : Nat) (d : Data) (pw : List Nat) (hlive : lib.get b = some d) :
     let pn := lazyNfkd cfg.strSize (env.nfkd lib.deps.nfkd) pw
     (crypt cfg env lib b d pw).2 =
       (if pn.2 then [Event.nfkd lib.deps.nfkd pw pn.1] else []) ++
@@ -194,13 +202,13 @@ theorem crypt_events (cfg : Cfg) (env : Env) (lib : Lib) (b : Nat) (d : Data) (p
        Event.zeroStack lib.deps.memzero .mask 32,
        Event.zeroStack lib.deps.memzero .passNorm cfg.strSize] ∧
     (crypt cfg env lib b d pw).1.get b = some (cryptData d (env.kdf lib.deps.pbkdf2 pn.1 cryptSalt 10000 32)) := by
-  simp only [crypt, decompose, KDF_NUM_ITERATIONS, cryptSalt, Lib.get, Lib.put, List.lookup_cons_self, and_self]
+  simp only [crypt, decompose, KDF_NUM_ITERATIONS, cryptSalt, Lib.get_update, hlive, ↓reduceIte, Option.map_some, and_self]
 
 /-- canonically equivalent spellings (equal normalised forms) give the same result. -/
-theorem crypt_norm_equiv (cfg : Cfg) (env : Env) (lib : Lib) (b : Nat) (d : Data) (pw pw' : List Nat)
+theorem crypt_norm_equiv (cfg : Cfg) (env : Env) (lib : Lib) (b : Nat) (d : Data) (pw pw' : List Nat) (hlive : lib.get b = some d)
     (h : (lazyNfkd cfg.strSize (env.nfkd lib.deps.nfkd) pw).1 = (lazyNfkd cfg.strSize (env.nfkd lib.deps.nfkd) pw').1) :
     (crypt cfg env lib b d pw).1.get b = (crypt cfg env lib b d pw').1.get b := by
-  rw [(crypt_events cfg env lib b d pw).2, (crypt_events cfg env lib b d pw').2, h]
+  rw [(crypt_events cfg env lib b d pw hlive).2, (crypt_events cfg env lib b d pw' hlive).2, h]
 
 /-- non-vacuity / the published vector: test mask of tests.c applied to seed 3's secret is an involution. -/
 example : cryptSecret (cryptSecret ([0x67, 0xb9, 0x36, 0xdf, 0xa4, 0xda, 0x6a, 0xe8, 0xd3, 0xb3, 0xcd, 0xb3, 0xb9, 0x37, 0xf4, 0x02, 0x7b, 0x0e, 0x3b] ++ List.replicate 13 0)
